@@ -1,5 +1,6 @@
 (* C03 — proofs about Model/ModelGen.v *)
 From PG Require Import Lib.Strs Model.Converter Model.ModelGen.
+From Coq Require Import Lia.
 
 Definition s_uuid : str := [117;117;105;100].
 
@@ -169,6 +170,106 @@ Section MapsBijective.
     - intros f Hf. destruct (Hwire f Hf) as [w [_ [Hw Hd]]]. rewrite Hw, Hd. reflexivity.
   Qed.
 End MapsBijective.
+
+(* ======================================================================================
+   Freshness of the collision loop: the names it picks are pairwise distinct, for any sanitizer —
+   so the distinctness guard of maps_bijective_partial always holds
+   ====================================================================================== *)
+From Coq Require Import DecimalN.
+
+Lemma uint_codes_inj : forall u v, uint_codes u = uint_codes v -> u = v.
+Proof.
+  induction u; destruct v; cbn [uint_codes]; intro H; try reflexivity; try discriminate;
+    inversion H as [H']; f_equal; apply IHu; exact H'.
+Qed.
+
+Lemma digits_inj : forall a b, digits a = digits b -> a = b.
+Proof.
+  intros a b H. unfold digits in H. apply uint_codes_inj in H.
+  rewrite <- (DecimalN.Unsigned.of_to a), <- (DecimalN.Unsigned.of_to b), H. reflexivity.
+Qed.
+
+Definition cand (base : str) (k : N) : str := base ++ [95] ++ digits k.
+
+Lemma cand_inj : forall base a b, cand base a = cand base b -> a = b.
+Proof.
+  intros base a b H. unfold cand in H. apply app_inv_head in H. apply app_inv_head in H.
+  apply digits_inj. exact H.
+Qed.
+
+Lemma fresh_name_bad : forall f base s seen,
+  mem_str (fresh_name f base s seen) seen = true ->
+  forall i, (i <= f)%nat -> mem_str (cand base (s + N.of_nat i)) seen = true.
+Proof.
+  induction f as [|f IH]; intros base s seen H i Hi.
+  - assert (i = 0%nat) by lia. subst i. cbn [fresh_name] in H. rewrite N.add_0_r. exact H.
+  - cbn [fresh_name] in H. fold (cand base s) in H.
+    destruct (mem_str (cand base s) seen) eqn:E.
+    + destruct i as [|i]; [rewrite N.add_0_r; exact E|].
+      replace (s + N.of_nat (S i)) with ((s + 1) + N.of_nat i) by lia.
+      apply (IH base (s + 1) seen H i). lia.
+    + rewrite E in H. discriminate.
+Qed.
+
+Lemma NoDup_map_inj : forall {A B} (f : A -> B) l,
+  (forall x y, f x = f y -> x = y) -> NoDup l -> NoDup (map f l).
+Proof.
+  intros A B f l Hinj H. induction H as [|x l Hni _ IH]; cbn [map]; constructor; [|exact IH].
+  intro Hin. apply in_map_iff in Hin as [y [Hy Hin]]. apply Hinj in Hy. subst y. contradiction.
+Qed.
+
+Lemma fresh_name_fresh : forall base s seen,
+  mem_str (fresh_name (length seen) base s seen) seen = false.
+Proof.
+  intros base s seen. destruct (mem_str _ seen) eqn:E; [|reflexivity]. exfalso.
+  pose proof (fresh_name_bad (length seen) base s seen E) as Hall.
+  pose (L := map (fun i => cand base (s + N.of_nat i)) (seq 0 (S (length seen)))).
+  assert (Hnd : NoDup L).
+  { apply NoDup_map_inj; [|apply seq_NoDup]. intros x y Hxy. apply cand_inj in Hxy. lia. }
+  assert (Hincl : incl L seen).
+  { intros c Hc. apply in_map_iff in Hc as [i [<- Hi]]. apply in_seq in Hi.
+    apply mem_str_In. apply Hall. lia. }
+  pose proof (NoDup_incl_length Hnd Hincl) as Hlen.
+  unfold L in Hlen. rewrite map_length, seq_length in Hlen. lia.
+Qed.
+
+Section Fresh.
+  Variable sanitize : str -> str.
+
+  Lemma field_name_for_fresh : forall seen p, ~ In (field_name_for sanitize seen p) seen.
+  Proof.
+    intros seen p Hin. apply mem_str_In in Hin. unfold field_name_for in Hin.
+    destruct (mem_str (sanitize p) seen) eqn:E.
+    - rewrite fresh_name_fresh in Hin. discriminate.
+    - rewrite E in Hin. discriminate.
+  Qed.
+
+  Lemma name_fields_fresh : forall ps seen,
+    NoDup (map snd (name_fields sanitize seen ps)) /\
+    forall fn, In fn (map snd (name_fields sanitize seen ps)) -> ~ In fn seen.
+  Proof.
+    induction ps as [|p ps IH]; intro seen; cbn [name_fields map snd].
+    - split; [constructor | intros fn []].
+    - destruct (IH (field_name_for sanitize seen (p_name p) :: seen)) as [Hnd Hout]. split.
+      + constructor; [|exact Hnd]. intro Hin. apply (Hout _ Hin). left. reflexivity.
+      + intros fn [<- | Hin]; [apply field_name_for_fresh|].
+        intro Hs. apply (Hout _ Hin). right. exact Hs.
+  Qed.
+
+  Lemma NoDup_nodupb : forall l, NoDup l -> nodupb l = true.
+  Proof.
+    induction 1 as [|x l Hni _ IH]; [reflexivity|]. cbn [nodupb]. rewrite IH, andb_true_r.
+    destruct (mem_str x l) eqn:E; [apply mem_str_In in E; contradiction | reflexivity].
+  Qed.
+
+  (* full: no guard left *)
+  Theorem maps_bijective_full : forall s,
+    NoDup (map p_name (s_props s)) -> maps_bijective (gen_class sanitize s).
+  Proof.
+    intros s Hp. apply maps_bijective_partial; [exact Hp|].
+    apply NoDup_nodupb. unfold names_of. apply name_fields_fresh.
+  Qed.
+End Fresh.
 
 (* non-vacuity: three properties that sanitize to the same name get distinct fields and inverse maps *)
 Definition san_demo (s : str) : str := [117;115;101;114;95;105;100].     (* every name -> "user_id" *)
